@@ -1,5 +1,209 @@
 import Rivaas.Proto
-/- Driver for C19 (stub: not built yet) -/
-def main : IO UInt32 := do
-  IO.eprintln "driver for C19 is not built yet"
-  return 2
+import Rivaas.Model.Accept
+import Rivaas.Model.Render
+import Rivaas.Model.Headers
+import Rivaas.Spec.Accept
+import Rivaas.Spec.Render
+/-
+Driver for C19. Case lines (family letter first):
+  N <n> { <kind 0..3> <header> <offers…> }* <npf> { <raw> <0 | 1 micro> }* => <n> { A <answer> <fresh answer> | P }*
+  F <code> <preCT> <format> <nargs> { S <str> | O }* <sprintf> => R <status> <ctype> <body> | E | P
+  J <variant> <code> <hasExtra> <extra> <encOK> <enc> => R <status> <ctype> <body> <same> | E <bodylen> <ctype> | P
+  H <n> { <op> <args…> <code> <ship…> <keys…> }* => <n> { V <nkeys> { <values…> }* | P }*
+-/
+namespace Rivaas.DriverC19
+open Rivaas.Proto
+
+/-! ### N -/
+
+def pKind : P Accept.Kind := do
+  let k ← nat
+  match k with
+  | 0 => pure .accept | 1 => pure .charset | 2 => pure .encoding | 3 => pure .language
+  | _ => failure
+
+def pCall : P Accept.Call := do
+  let k ← pKind
+  let h ← str
+  let os ← list str
+  pure { kind := k, header := h, offers := os }
+
+def pPF : P (Bytes × Option Nat) := do
+  let raw ← str
+  let v ← opt nat
+  pure (raw, v)
+
+def mkPF (tbl : List (Bytes × Option Nat)) : Accept.PF := fun raw => (tbl.lookup raw).join
+
+def pNegObs : P (Option (Bytes × Bytes)) := do
+  let k ← tok
+  if k == "A" then do
+    let a ← str
+    let f ← str
+    pure (some (a, f))
+  else if k == "P" then pure none else failure
+
+def encNeg (answers : List Bytes) : String :=
+  " ".intercalate (toString answers.length :: answers.map encStr)
+
+def stepN (id : String) (inp obs : List String) : String :=
+  match runP (do let cs ← list pCall; let tbl ← list pPF; pure (cs, tbl)) inp, runP (list pNegObs) obs with
+  | some (calls, tbl), some os =>
+    let pf := mkPF tbl
+    let m := Accept.run pf Accept.Ctx.fresh calls
+    let mi := os.length == m.length && (os.zip m).all (fun p => match p.1 with
+      | some (a, _) => a == p.2
+      | none => false)
+    let s := os.length == calls.length && (os.zip calls).all (fun p => match p.1 with
+      | some (a, fresh) =>
+        a == fresh && AcceptSpec.negotiationOK (p.2.kind == Accept.Kind.accept) p.2.header p.2.offers a
+      | none => false)
+    -- how many calls fall under the strong clause of the oracle (header in the grammar, offers well formed)
+    let dom := (calls.filter (fun c => AcceptSpec.inDomain (c.kind == Accept.Kind.accept) c.header c.offers)).length
+    verdict id mi s "-" ("N " ++ encNeg m ++ s!" dom {dom} {calls.length}")
+  | _, _ => s!"{id} bad-case"
+
+/-! ### F -/
+
+def pArg : P (Option Bytes) := do
+  let k ← tok
+  if k == "S" then some <$> str else if k == "O" then pure none else failure
+
+structure FObs where
+  status : Nat
+  ctype : Bytes
+  body : Bytes
+
+def pFObs : P (Option FObs) := do
+  let k ← tok
+  if k == "R" then do
+    let st ← nat
+    let ct ← str
+    let b ← str
+    pure (some { status := st, ctype := ct, body := b })
+  else if k == "P" || k == "E" then pure none else failure
+
+def stepF (id : String) (inp obs : List String) : String :=
+  match runP (do
+      let code ← nat; let pre ← str; let fmt ← str; let args ← list pArg; let sp ← str
+      pure (code, pre, fmt, args, sp)) inp, runP pFObs obs with
+  | some (code, pre, fmt, args, sp), some o =>
+    let margs := args.map fun a => match a with | some s => Render.Arg.str s | none => Render.Arg.other
+    let sargs := args.map fun a => match a with | some s => RenderSpec.Arg.str s | none => RenderSpec.Arg.other
+    let mbody := Render.stringfBody fmt margs sp
+    let mct := Render.stringfCType pre
+    let mi := match o with
+      | some r => r.status == code && r.ctype == mct && r.body == mbody
+      | none => false
+    let s := match o with
+      | some r => RenderSpec.stringfOK code pre fmt sargs sp r.status r.ctype r.body
+      | none => false
+    verdict id mi s "-" s!"R {code} {encStr mct} {encStr mbody}"
+  | _, _ => s!"{id} bad-case"
+
+/-! ### J -/
+
+inductive JObs
+  | ok (status : Nat) (ctype body : Bytes) (same : Bool)
+  | err (bodyLen : Nat) (ctype : Bytes)
+  | panic
+
+def pJObs : P JObs := do
+  let k ← tok
+  if k == "R" then do
+    let st ← nat; let ct ← str; let b ← str; let same ← bool
+    pure (.ok st ct b same)
+  else if k == "E" then do
+    let n ← nat; let ct ← str
+    pure (.err n ct)
+  else if k == "P" then pure .panic else failure
+
+def stepJ (id : String) (inp obs : List String) : String :=
+  match runP (do
+      let v ← nat; let code ← nat; let he ← bool; let ex ← str; let ok ← bool; let enc ← str
+      pure (v, code, he, ex, ok, enc)) inp, runP pJObs obs with
+  | some (v, code, he, ex, ok, enc), some o =>
+    let extra := if he then some ex else none
+    if ok then
+      let mbody := Render.jsonBody v extra enc
+      let mct := Render.jsonCType v
+      let (mi, s) := match o with
+        | .ok st ct b same => (st == code && ct == mct && b == mbody, RenderSpec.jsonOK v code extra enc st ct b same)
+        | _ => (false, false)
+      verdict id mi s "-" s!"R {code} {encStr mct} {encStr mbody}"
+    else
+      -- encoding/json refused the value: the helper returns the error and writes nothing
+      let (mi, s) := match o with
+        | .err n ct => (n == 0 && ct == [], n == 0 && ct == [])
+        | _ => (false, false)
+      verdict id mi s "-" "E 0 h:"
+  | _, _ => s!"{id} bad-case"
+
+/-! ### H -/
+
+structure HOp where
+  op : Headers.Op
+  keys : List Bytes
+
+def pHOp : P HOp := do
+  let name ← tok
+  let args ← list str
+  let _code ← nat
+  let ship ← list str
+  let keys ← list str
+  let a (i : Nat) : Bytes := args.getD i []
+  let op ← match name with
+    | "Header" => pure (Headers.Op.header (keys.getD 0 []) (a 1))
+    | "Append" => pure (Headers.Op.append (keys.getD 0 []) (a 1))
+    | "Vary" => pure (Headers.Op.vary args)
+    | "Link" => pure (Headers.Op.link (a 0) (a 1))
+    | "Redirect" => pure (Headers.Op.location (a 0))
+    | "Location" => pure (Headers.Op.location (a 0))
+    | "ContentType" => pure (Headers.Op.contentType (a 0) (ship.getD 0 []))
+    | "Download" => pure (Headers.Op.download (a 0) (if args.length > 1 then some (a 1) else none))
+    | "NotAllowed" => pure (Headers.Op.notAllowed args)
+    | "SetCookie" => pure (Headers.Op.setCookie (ship.getD 0 []))
+    | "Data" => pure (Headers.Op.data (a 0))
+    | "Reader" => pure (Headers.Op.reader (a 0) (keys.getD 1 []) (a 2))
+    | _ => failure
+  pure { op := op, keys := keys }
+
+def pHObs : P (Option (List (List Bytes))) := do
+  let k ← tok
+  if k == "V" then some <$> list (list str) else if k == "P" then pure none else failure
+
+/-- model observations: after each operation the values of the keys it names -/
+def runH : Headers.HMap → List HOp → List (List (List Bytes))
+  | _, [] => []
+  | m, o :: os =>
+    let m' := Headers.apply m o.op
+    (o.keys.map (Headers.hvals m')) :: runH m' os
+
+def encVals (vss : List (List Bytes)) : String :=
+  " ".intercalate ("V" :: toString vss.length :: vss.map (fun vs => " ".intercalate (toString vs.length :: vs.map encStr)))
+
+def stepH (id : String) (inp obs : List String) : String :=
+  match runP (list pHOp) inp, runP (list pHObs) obs with
+  | some ops, some os =>
+    let m := runH [] ops
+    let mi := os.length == m.length && (os.zip m).all (fun p => p.1 == some p.2)
+    let s := os.length == ops.length && os.all (fun o => match o with
+      | some vss => vss.all (fun vs => vs.all RenderSpec.noCRLF)
+      | none => false)
+    verdict id mi s "-" (" ".intercalate (toString m.length :: m.map encVals))
+  | _, _ => s!"{id} bad-case"
+
+def step (line : String) : String :=
+  match splitCase line with
+  | none => "? bad-line"
+  | some (id, inp, obs) =>
+    match inp with
+    | "N" :: rest => stepN id rest obs
+    | "F" :: rest => stepF id rest obs
+    | "J" :: rest => stepJ id rest obs
+    | "H" :: rest => stepH id rest obs
+    | _ => s!"{id} bad-case"
+
+end Rivaas.DriverC19
+
+def main : IO UInt32 := Rivaas.Proto.driverMain Rivaas.DriverC19.step
